@@ -12,11 +12,13 @@ use std::io::{BufRead, Write};
 fn synth(contents: &Contents, tok: &str, seq: usize) -> Option<(String, String)> {
     let (tag, knob) = match tok.split_once('=') { Some((t, k)) => (t, Some(k)), None => (tok, None) };
     let typical = |t: &str| contents.valid.get(t).and_then(|v| v.first().cloned());
+    // "100" -> "100,00"; "100.01" -> "100,01" (the model writes whole units, or units and cents)
+    let units = |a: &str| -> String { if a.contains('.') { a.replace('.', ",") } else { format!("{},00", a) } };
     let amt = |k: &str| -> (String, String) {
         let mut it = k.split(':');
         let cur = it.next().unwrap_or("USD").to_string();
         let a = it.next().unwrap_or("100");
-        (cur, format!("{},00", a))
+        (cur, units(a))
     };
     let content = match (tag, knob) {
         (_, None) => match tag {
@@ -29,7 +31,7 @@ fn synth(contents: &Contents, tok: &str, seq: usize) -> Option<(String, String)>
         ("23E", Some(k)) => k.to_string(),
         ("32A", Some(k)) | ("32C", Some(k)) | ("32D", Some(k)) => { let (c, a) = amt(k); format!("240719{}{}", c, a) }
         ("33B", Some(k)) | ("32B", Some(k)) | ("71F", Some(k)) | ("71G", Some(k)) => { let (c, a) = amt(k); format!("{}{}", c, a) }
-        ("19", Some(k)) => format!("{},00", k),
+        ("19", Some(k)) => units(k),
         ("34F", Some(k)) => { let p: Vec<&str> = k.split(':').collect(); format!("{}{}{},00", p[0], p.get(1).unwrap_or(&""), p.get(2).unwrap_or(&"10")) }
         ("60F", Some(k)) | ("62F", Some(k)) | ("64", Some(k)) | ("65", Some(k)) | ("60M", Some(k)) | ("62M", Some(k)) => {
             let p: Vec<&str> = k.split(':').collect(); format!("{}231225{}1234,56", p[0], p.get(1).unwrap_or(&"USD"))
